@@ -239,3 +239,59 @@ func CloneFresh(c *cell.Cell, r *mon.Rng, budget int) *cell.Cell {
 	}
 	return cp(c, false)
 }
+
+// ExactCells builds a 4-ary heap-shaped tree with exactly n distinct cells.
+func ExactCells(n int) *cell.Cell {
+	nodes := make([]*cell.Cell, n)
+	for i := n - 1; i >= 0; i-- {
+		b := make([]bool, 32)
+		for k := 0; k < 32; k++ {
+			b[k] = uint32(i+1)>>(31-uint(k))&1 == 1
+		}
+		c := cell.New(b, false)
+		for k := 1; k <= 4; k++ {
+			if j := 4*i + k; j < n {
+				c.Refs = append(c.Refs, nodes[j])
+			}
+		}
+		nodes[i] = c
+	}
+	return nodes[0]
+}
+
+// ExactBytes builds a chain whose serialised cell data (descriptors, padded
+// data, reference indexes of refSize bytes) is exactly total bytes long.
+// Returns nil if the target cannot be met with this simple shape.
+func ExactBytes(total, refSize int) *cell.Cell {
+	const per = 100 // data bytes of a full link
+	link := 2 + per + refSize
+	if total < 3 {
+		return nil
+	}
+	m := total / link // number of full links (each with one ref)
+	rest := total - m*link
+	// the last cell has no ref: 2 + d bytes, d in 0..127
+	for m >= 0 {
+		d := rest - 2
+		if d >= 0 && d <= 127 {
+			break
+		}
+		m--
+		rest += link
+	}
+	if m < 0 {
+		return nil
+	}
+	mk := func(id, nbytes int) []bool {
+		b := make([]bool, 8*nbytes)
+		for k := 0; k < len(b) && k < 32; k++ {
+			b[k] = uint32(id+1)>>(31-uint(k))&1 == 1
+		}
+		return b
+	}
+	c := cell.New(mk(0, rest-2), false)
+	for i := 1; i <= m; i++ {
+		c = cell.New(mk(i, per), false, c)
+	}
+	return c
+}
